@@ -83,6 +83,14 @@ class VoiceLeadingStream(Stream):
         out = vl(sc)
         if spy is not None:
             spy["same_object_again"] = str(vl(sc)) == str(out)      # the same optimiser object, used twice
+            if case["seed"] % 3 == 0:
+                # ... and once more after a call that brought its own optimiser parameters (its result is thrown away): the same request
+                # to the same object still gives the same answer
+                try:
+                    vl(sc, max_iter=2, max_iter_rules=1, temperature=5, max_norm=1)
+                except Exception:
+                    pass
+                spy["same_object_again"] = spy["same_object_again"] and str(vl(sc)) == str(out)
         return out
 
     def impl(self, case):
@@ -438,6 +446,15 @@ class CounterpointScore(Stream):
                 c["parts"].sort(key=lambda p: names.index(p[0]))
                 score.append(c)
             score = fix_cp_relative(sg.equalize(score))
+            if i % 4 == 1:
+                # drum kits beside the pitched parts (drums_8 is the name the MIDI loader gives to drum program 8): taken out before the
+                # counterpoint is written and put back afterwards, every one of them
+                kits = rng.choice([["drums_0__0"], ["drums_8__0"], ["drums_8__0", "drums_0__0"], ["drums_0__0", "drums_16__1"]])
+                for c in score:
+                    cd = max([sum(F(x["dur"]) for x in notes) for _, notes in c["parts"]], default=F(0))
+                    if cd > 0:
+                        for kit in kits:
+                            c["parts"].append([kit, [{"kind": "d", "val": rng.randrange(12), "oct": -2, "dur": cd, "amp": 80}]])
             fixed = [nm for nm in names if rng.random() < 0.4] or [names[0]]
             if len(fixed) == len(names):
                 fixed = fixed[:-1]
@@ -468,7 +485,7 @@ class CounterpointScore(Stream):
             got = r["ev_out"].get(nm, [])
             if [(o, d) for p, o, d, v in evs] != [(o, d) for p, o, d, v in got]:
                 return {"sig": "cps-onsets-durations", "msg": f"part {nm}: {evs[:5]} became {got[:5]}"}
-            if nm in case["fixed"] and [p for p, o, d, v in evs] != [p for p, o, d, v in got]:
+            if (nm in case["fixed"] or nm.startswith("drums")) and [p for p, o, d, v in evs] != [p for p, o, d, v in got]:
                 return {"sig": "cps-fixed-part-changed", "msg": f"part {nm}: {evs[:5]} became {got[:5]}"}
         if not r["unchanged_input"]:
             return {"sig": "cps-mutates-input", "msg": ""}
